@@ -26,7 +26,25 @@ class Spec(MQSpec):
         self.profiles = [(c06_profile(tier), 1)]
 
     def generate(self, ch, prof):
-        return G.gen_c06(ch, prof)
+        sc = G.gen_c06(ch, prof)
+        if self.tier == 'thorough' and sc['faults'] and ch.chance('fault', 1, 2):
+            # kill / stall point drawn uniformly over the SCHEDULING STEPS of a fault-free reference run of the same
+            # scenario (activity-weighted: lands inside publishes, handshakes, request bursts), not over virtual time
+            import copy
+            from sim.choice import ChoiceSource
+            from world.mq import MQWorld
+            ref = copy.deepcopy(sc)
+            ref['faults'] = []
+            ref['t_end_ns'] = 3500 * MS
+            ref['fifo'] = False
+            w = MQWorld(ref, ChoiceSource(ch.draw('fault', 1 << 30)))
+            w.run()
+            f = sc['faults'][0]
+            f.pop('at_ns', None)
+            f.pop('plus_steps', None)
+            f['at_step'] = 1 + ch.draw('fault', max(1, w.sched.step))
+            sc['kill_point'] = 'reference-step'
+        return sc
 
     def budget(self, tier):
         return (1200, 110) if tier == 'quick' else (40_000, 1500)
